@@ -208,13 +208,10 @@ def panic_case(args):
         ran = impl["fs"].get("dep.ran")
         known = []
         if ran and (victim + ".mk") in (ran[1] or ""):
-            if not problems and impl["rc"] == 2 and ("panic: " in impl["stderr"] or "goroutine " in impl["stderr"]):     # died of the panic itself
-                # finding D25 (recorded): the program does die of the panic (non-zero status, no completion, no output), but while
-                # the panic unwinds, Task.Execute's `defer close(t.Done)` runs and Process.Run takes the closed channel for
-                # "task done": the dependant may start before the runtime has finished crashing
-                known.append("panic-unwinding-closes-done")
-            else:
-                problems.append(("dependant-executed", "%s: the task that depends on its output executed" % what))
+            # D25 (fixed in /repo 97de379): Task.Execute used to `defer close(t.Done)`, which ran while a panic unwound and let
+            # Process.Run take the closed channel for "task done"; Done is now closed on the normal returns only, so a dependant
+            # that executes here is a violation whatever the exit status
+            problems.append(("dependant-executed", "%s: the task that depends on its output executed" % what))
         return {"spec": sp.text(with_files=False)[:4000], "bufsize": sp.bufsize, "problems": problems, "known": known, "ntasks": 2 * L, "rc": impl["rc"], "stderr": impl["stderr"][-300:],
                 "yield": None, "wall": impl["wall"], "mode": "gofunc-" + kind, "gofunc": True, "status": "fail"}
     finally:
